@@ -100,6 +100,9 @@ func newH(rt *rapid.T, prop string, o sim.Options) *H {
 		h.labels["records-held-by-the-library's-"+w.Store.Flavour+"-persistence"] = true
 	}
 	w.WithLock(func() { h.brokerInit = w.Broker.Snapshot() })
+	if w.AdoptHung {
+		h.Failf("hang: AdoptSession did not return; no Persistence operation for 4 s (AtLeastOnceMax %d, ExactlyOnceMax %d)", w.AdoptHungLimits[0], w.AdoptHungLimits[1])
+	}
 	// connections behave like net.Pipe or like TCP where the two differ
 	w.PipeLike = rapid.Bool().Draw(rt, "pipeLikeConnections")
 	return h
